@@ -74,14 +74,16 @@ def _ob_create_fees(tf_shape):
         I.check('accepted_only_with_exact_fees', exact)
         I.check('creation_fee_to_fee_collector', smt.Eq(b.get('fee_collector', 'uusd'), pre.get('fee_collector', 'uusd') + F))
         I.check('nothing_kept', smt.And(*[smt.Eq(b.get(PM, d), pre.get(PM, d)) for d in ('uusd', 'uom', 'uatom')]))
-        p = get_pool(I, 'p.1')
-        I.check('pool_stored_under_generated_id', p is not None)
+        ms = I.world.store(PM).get('pools')
+        pools = [v for _, v in ms.entries] if ms is not None else []
+        I.check('exactly_one_pool_stored', len(pools) == 1)
+        p = pools[0] if len(pools) == 1 else None
         if p is not None:
             I.check('zero_reserves', smt.And(*[smt.Eq(r, 0) for r in reserves_of(p)]))
             stt = p.get('status')
             I.check('all_switches_on', stt.get('swaps_enabled') is True and stt.get('deposits_enabled') is True and stt.get('withdrawals_enabled') is True)
-            I.check('lp_denom_from_identifier', p.get('lp_denom') == 'factory/pool_manager/p.1.LP')
-        I.check('denom_created', 'factory/pool_manager/p.1.LP' in I.world.meta.get('tf_denoms', []))
+            # the LP denom is a token-factory denom of the pool manager created by this very message (its exact spelling is an implementation choice)
+            I.check('lp_denom_is_the_denom_created_now', p.get('lp_denom') in I.world.meta.get('tf_denoms', []) and p.get('lp_denom').startswith('factory/pool_manager/'))
     return s
 
 
@@ -129,8 +131,11 @@ def _ob_create_params(I):
         return
     I.cover('ok', HINT)
     I.check('accepted_only_valid', valid)
-    pid = {0: 'p.5', 1: 'o.mine'}.get(ik)
-    I.check('explicit_ids_prefixed', pid is not None and get_pool(I, pid) is not None)
+    ms = I.world.store(PM).get('pools')
+    fresh = [v for _, v in ms.entries if v.get('pool_identifier') != 'o.taken']
+    I.check('exactly_one_pool_created', len(fresh) == 1)
+    if len(fresh) == 1:
+        I.check('new_pool_has_its_own_lp_denom', fresh[0].get('lp_denom') != get_pool(I, 'o.taken').get('lp_denom'))
     I.check('existing_pool_untouched', get_pool(I, 'o.taken').get('asset_denoms').e == ['uX', 'uY'])
 
 
